@@ -11,6 +11,7 @@ import (
 	"os"
 	"os/exec"
 	"path/filepath"
+	"runtime"
 	"strings"
 	"sync"
 	"sync/atomic"
@@ -372,7 +373,123 @@ func tail(h []string) []string {
 	return h
 }
 
+// fuseInterrupt: a read request that the kernel interrupts while the store takes its time (the reading process got a
+// signal), followed by further requests on the same handle, the store answering the old request only then. Whatever
+// is answered with OK carries the blob's bytes of the range asked for.
+func fuseInterrupt(c *harness.Ctx, rng *rand.Rand, class string, blob []byte, idx desync.Index, ms *dsu.MemStore) {
+	L := len(blob)
+	if L < 2 || len(idx.Chunks) < 3 {
+		return
+	}
+	var stallOn int64 = 1 // the first store request stalls until released
+	release := make(chan struct{})
+	arrived := make(chan struct{}, 1)
+	ms.Gate = func(op string, id desync.ChunkID, n int64) {
+		if op == "get" && n == atomic.LoadInt64(&stallOn) {
+			select {
+			case arrived <- struct{}{}:
+			default:
+			}
+			<-release
+		}
+	}
+	ifs := desync.NewIndexMountFS(idx, "blob", ms)
+	ff, err := dsu.MountBridge(ifs, "blob")
+	if err != nil {
+		c.Violation("fuse-lookup", "%v", err)
+		return
+	}
+	fh, st := ff.Open()
+	if st != fuse.OK {
+		c.Violation("fuse-open", "open: %v", st)
+		return
+	}
+	nullID := dsu.Sum(make([]byte, idx.Index.ChunkSizeMax))
+	pick := func() (uint64, uint32) {
+		for try := 0; ; try++ {
+			ch := idx.Chunks[rng.Intn(len(idx.Chunks))]
+			if ch.ID != nullID || try > 20 {
+				off := ch.Start + uint64(rng.Intn(int(ch.Size)))
+				return off, uint32(1 + rng.Intn(300))
+			}
+		}
+	}
+	type result struct {
+		off  uint64
+		size uint32
+		b    []byte
+		st   fuse.Status
+	}
+	start := func(cancel <-chan struct{}, off uint64, size uint32) chan result {
+		out := make(chan result, 1)
+		go func() {
+			b, st := ff.ReadInterruptible(cancel, fh, off, size)
+			out <- result{off, size, b, st}
+		}()
+		return out
+	}
+	cancel := make(chan struct{})
+	o1, s1 := pick()
+	r1 := start(cancel, o1, s1)
+	select {
+	case <-arrived:
+	case res := <-r1:
+		// served without the store (a chunk of zeros): nothing to interrupt
+		r1 = make(chan result, 1)
+		r1 <- res
+	}
+	close(cancel)
+	// further requests on the same handle while the old store request is still pending
+	var later []chan result
+	for k := 0; k < 1+rng.Intn(3); k++ {
+		o, s := pick()
+		later = append(later, start(nil, o, s))
+		for j := 0; j < 50; j++ {
+			runtime.Gosched()
+		}
+	}
+	time.Sleep(time.Duration(rng.Intn(3)) * time.Millisecond)
+	close(release)
+	all := []result{<-r1}
+	for _, ch := range later {
+		all = append(all, <-ch)
+	}
+	// and once everything has settled
+	for k := 0; k < 3; k++ {
+		o, s := pick()
+		all = append(all, <-start(nil, o, s))
+	}
+	ff.Release(fh)
+	for k, r := range all {
+		if r.st != fuse.OK {
+			if k > 0 {
+				c.Violation("fuse-error-without-fault", "request %d (%d bytes at %d) on a handle whose first request was interrupted failed with %v although the store never failed", k, r.size, r.off, r.st)
+				return
+			}
+			continue
+		}
+		want := blob[r.off:]
+		if len(want) > int(r.size) {
+			want = want[:r.size]
+		}
+		if !bytes.Equal(r.b, want) {
+			where := "nowhere in the blob"
+			if at := bytes.Index(blob, r.b); at >= 0 && len(r.b) > 8 {
+				where = fmt.Sprintf("the bytes at %d", at)
+			}
+			c.Violation("fuse-bytes", "request %d (%d bytes at %d) on a handle whose first request was interrupted while the store stalled was answered OK with %d bytes that are %s (blob class %s)", k, r.size, r.off, len(r.b), where, class)
+			return
+		}
+	}
+	c.Count("fuse_interrupted_requests", 1)
+	c.NonTrivial("fuse-interrupt|%s|%d", class, len(all))
+}
+
 func fuseLeg(c *harness.Ctx, rng *rand.Rand, class string, blob []byte, idx desync.Index, ms *dsu.MemStore, sz dsu.Sizes, concurrent bool) {
+	if rng.Intn(6) == 0 {
+		fuseInterrupt(c, rng, class, blob, idx, ms)
+		return
+	}
 	ms.Gate = func(op string, id desync.ChunkID, n int64) {
 		if concurrent && n%3 == 0 {
 			time.Sleep(time.Duration(n%7) * 30 * time.Microsecond)
